@@ -75,6 +75,9 @@ ENGINES = [
     {"name": "E-enum", "path": "engine/vh.h + checks/*.c", "serves_properties": ["C01", "C02", "C03", "C04", "C05", "C06", "C12", "C13", "C16"],
      "kind_free_text": "stateless exhaustive enumeration of explicit finite input alphabets on the real code, guard-page "
                        "sandbox, reference-encoder / reference-model oracles"},
+    {"name": "E-bfs", "path": "checks/bitmap_bfs.c", "serves_properties": ["C08"],
+     "kind_free_text": "explicit-state breadth-first search over operation histories of the real object, state "
+                       "deduplication on a canonical key, reference-model comparison after every transition"},
 ]
 
 ALL_PROPS = ["C%02d" % i for i in range(1, 19)]
@@ -122,3 +125,23 @@ arrays("C16", "E-enum: every metadata field and header accessor named by the pro
 arrays("C06", "E-enum: adaptive auto-selection and every forced encoding whose domain contains the array, decoded from an "
               "exact-size copy; decision-tree path signatures counted; synthetic sweep of the selection function",
        "; class = (selected encoding, decision-tree path signature)")
+
+CHECKS["C08"] = dict(
+    name="bitmap_bfs", harness=["checks/bitmap_bfs.c"], libs=["varintBitmap.c", "varintExternal.c"], engine="E-bfs",
+    configs={"quick": ["pinned", "asan"], "thorough": ["pinned", "asan", "debug"]},
+    shards={"pinned": 16, "asan": 16, "debug": 16},
+    deadline={"quick": 150, "thorough": 2400},
+    rule="explicit-state breadth-first search over operation histories of two bitmap registers: alphabet of ~56 operations "
+         "(add/remove at both sides of 4096 and of 65535, ranges shorter and longer than 4096, bulk add, clear, clone, "
+         "register copy/swap, and/or/xor/andnot in both operand orders, serialise+deserialise), depth 3 (quick) / 4 "
+         "(thorough), plus a complete small-universe scope {0..5} to depth 5/6 and a reduced alphabet to depth 5; states "
+         "deduplicated on (container type, cardinality, capacity, digest of contents) per register; a class is a distinct "
+         "(scope, container types of A and B, cardinality class) or container-type transition",
+    explanation="E-bfs on the real objects: after every transition membership on ~90 probes, cardinality, emptiness, "
+                "ascending duplicate-free iteration and array export are compared with a 65536-bit reference set, mutator "
+                "return values with the model, operands of binary operations re-observed; replay of every expanded history "
+                "must reach the same canonical state",
+    technique="explicit-state model checking (BFS over operation histories of the real object against a reference set)",
+    assumptions=["the 65536-bit reference set and its bit operations are trusted",
+                 "histories longer than the depth bound and operands outside the alphabet are not explored"],
+)
